@@ -921,3 +921,41 @@ def divzero(ctx: Ctx) -> None:
                             safe = True
             ctx.ob(d, b, safe, f"`{unparse(b, 60)}` divides by a length" + (" that is protected against zero" if safe else ": nothing excludes the empty case — ZeroDivisionError for an empty/0-d operand instead of an explicit error"), sel=f"div:{unparse(b.right, 40)}")
     ctx.need(n >= 2, f"only {n} divisions by a length found")
+
+
+ROLE_PAIRS = [("before", "after"), ("after", "before")]
+
+
+@rule("TWIN-ROLE-1", props=["C01"], floor=1)
+def twin_role(ctx: Ctx) -> None:
+    """role consistency of twin branches: a branch taken for the `after` side of a
+    (before, after) pair does not use the `before` member of another pair bound alongside it
+    (and vice versa) — the classic copy-paste slip between two near-identical branches"""
+    repo = ctx.repo
+    n = 0
+    for d in repo.functions():
+        if d.module.qual.startswith(("cubed.vendor.", "cubed.diagnostics.")):
+            continue
+        names = {x.id for x in d.own_nodes() if isinstance(x, ast.Name)}
+        for role, other in ROLE_PAIRS:
+            stems = {nm[: -len(role)] for nm in names if nm.endswith("_" + role) or nm == role}
+            stems = {s for s in stems if (s + other) in names}
+            if len(stems) < 2:
+                continue
+            for br in [x for x in d.own_nodes() if isinstance(x, ast.If)]:
+                tn = {x.id for x in ast.walk(br.test) if isinstance(x, ast.Name)}
+                mine = {t for t in tn if any(t == s + role for s in stems)}
+                theirs = {t for t in tn if any(t == s + other for s in stems)}
+                if not mine or theirs:
+                    continue
+                n += 1
+                wrong = sorted({x.id for st in br.body for x in ast.walk(st) if isinstance(x, ast.Name) and isinstance(x.ctx, ast.Load) and any(x.id == s + other for s in stems)})
+                ctx.ob(
+                    d,
+                    br,
+                    not wrong,
+                    f"branch on `{unparse(br.test, 40)}` handles the `{role}` side"
+                    + ("" if not wrong else f" but uses {wrong}: its twin branch uses the `{other}` members — the `{role}` side gets the `{other}` side's value"),
+                    sel=f"twin:{role}:{unparse(br.test, 30)}",
+                )
+    ctx.need(n >= 1, "no twin (before/after) branches found")
